@@ -414,6 +414,10 @@ def run(repo: Repo, rep: Report, tier: str) -> None:
     _borrow9(repo, rep, "C16", "C16-R1", "C09-R7", "every iteration of a loop that executes a `place` contributes its entity: the iteration values are exactly start, start+step, ... "
              "strictly before stop (the last partial step included)", floor=2)
 
+    # ---------------- R8 ---------------------------------------------------------------
+    _borrow9(repo, rep, "C10", "C10-R1", "C09-R8", "a placed entity keeps its coordinates through the optimizer: the reference rewrite of IRPlaceEntity builds x from x and y from y, "
+             "and rewrites every slot of the node", select=lambda o: "IRPlaceEntity" in o.construct or ".x " in o.construct or ".y " in o.construct, floor=2)
+
 
 
 def _deep(du: DefUse, e: ast.AST, depth: int = 0) -> list[ast.AST]:
